@@ -313,6 +313,7 @@ func c05Run(c *fw.C, caseID string) {
 	}
 	ticks := 3 + r.Intn(3)
 	nMomentums := ticks * 30
+	nextLive := uint64(0)
 	for i := 0; i < nMomentums; i++ {
 		// delegations move, balances move
 		for k := 0; k < r.Intn(4); k++ {
@@ -352,6 +353,33 @@ func c05Run(c *fw.C, caseID string) {
 		}
 		if !snap() {
 			return
+		}
+		// live: a tick whose proof momentum has just become final (the frontier's timestamp reached the proof time —
+		// at the earliest with the momentum that sits exactly ON the proof time) is asked for right away, on the
+		// producer, and compared with the reference; the same answers are compared again at the end
+		for {
+			var proofTime int64
+			if nextLive < 2 {
+				proofTime = ref.genesis + 1
+			} else {
+				proofTime = ref.genesis + int64(nextLive-1)*300
+			}
+			ft := int64(P.Frontier().TimestampUnix)
+			if proofTime > ft {
+				break
+			}
+			prods := ref.producers(nextLive)
+			for slot := 0; slot < 30 && prods != nil; slot++ {
+				got, err := P.Cons.GetMomentumProducer(time.Unix(ref.genesis+int64(nextLive)*300+int64(slot)*10, 0))
+				c.Eval(1)
+				if err != nil || got == nil || *got != prods[slot].Producing {
+					c.Violation("schedule-differs-from-reference producer-live-at-settlement", map[string]interface{}{"tick": nextLive, "slot": slot, "node_says": fmt.Sprint(got), "err": fmt.Sprint(err),
+						"reference": prods[slot].Producing.String(), "pillars": nPillars, "weights": mode, "frontier_timestamp_minus_proof_time": ft - proofTime, "proof_height": ref.proofFor(nextLive).Height})
+					return
+				}
+			}
+			c.SetAdd("live_settlement_distance_frontier_minus_proof_time", fmt.Sprint(ft-proofTime))
+			nextLive++
 		}
 	}
 	// every produced (= accepted) momentum: signer is the reference-elected pillar of the slot containing its timestamp
